@@ -80,6 +80,11 @@ CHECKS = {
          "The scheduler is only driven by what the node really receives (header-hash announcements from authenticated peers, timer ticks, fetched blocks, fetch failures, blocks arriving by another route) and only observed where its decisions leave the node (fetch_block_from_peer). A harness-side model of the fetches in flight checks the per-peer bound, height order and no-skip within each selection round, no double request, completeness at quiescence and the retry bound (1200 rounds with an always-failing block).",
          "Ordering is asserted among never-failed entries (a failed entry re-enters one round later by design). Open known findings F28/F28b (the scheduler forgets outstanding fetches when the block arrives from elsewhere) are keyed by root cause: an excess or double request that is not explained by such a forgotten fetch is still a violation.",
          "DESIGN.md §3 C16"),
+ "C17": ("exploration",
+         "property-based protocol testing with an active attacker model: generated interleavings (4..14 ops) of honest handshake traffic and attacker actions (drop, reorder, replay, redirect, reflect, own-key responses over right/foreign/self-chosen challenges, signing-oracle challenges) against two real routing threads; authentication monitor derived from observed challenges",
+         "Every transition of a connection to Connected under key K (status change or handshake-complete interface event) must coincide with the delivery, on that connection, of a response whose signature verifies for K over a challenge that this node issued on this connection and had not accepted before; deliveries that complete nothing must leave every other authenticated connection and the key->connection index untouched. The undisturbed handshake must complete on both sides.",
+         "Attacker cannot forge signatures; a live relay of the very challenge is counted, not flagged (it satisfies the statement's letter). Connection indices are fixed by the harness; rate limiters are not exhausted in these short sequences.",
+         "DESIGN.md §3 C17"),
 }
 NOT_YET = {}
 
